@@ -349,8 +349,8 @@ func leafJobs(tier string, fn, allow int) []Job {
 
 func segLemmaJobs() []Job {
 	out := raycastLemmaJobs()
-	out = append(out, Job{Pkg: "geometry", Harness: "H_K_SegSeg", Timeout: 120, Scale: true, Contracts: []string{fnRaycast}, ForkIn: []string{fnSegSeg}, Combine: true, Nlsat: true,
-		Note: "lemma relied on by the IntersectsSegment contract: path-wise over IntersectsSegment"})
+	out = append(out, Job{Pkg: "geometry", Harness: "H_K_SegSeg", Timeout: 120, Scale: true, Contracts: []string{fnRaycast}, ForkIn: []string{fnSegSeg}, Combine: true, Nlsat: true, NoCover: true,
+		Note: "lemma relied on by the IntersectsSegment contract: path-wise over IntersectsSegment (reachability of its paths is checked by C19's own run)"})
 	out = append(out, Job{Pkg: "geometry", Harness: "H_K_SpecSym", Timeout: 120, Scale: true, Note: "lemma: the segment-intersection spec is symmetric"})
 	out = append(out, Job{Pkg: "geometry", Harness: "H_K_SegSegBox", Timeout: 120, Scale: true, Note: "lemma instantiated where the implementation pre-filters by box"})
 	return out
@@ -452,6 +452,66 @@ func init() {
 		out = append(out, leafJobs(tier, 1, 0)...)
 		out = append(out, leafJobs(tier, 0, 0)...)
 		out = append(out, apiJobs(tier)...)
+		return out
+	}
+}
+
+func init() {
+	propMeta["C09"] = PropMeta{
+		Bounds: map[string]interface{}{
+			"quick":    "all 144 ordered pairs of the twelve kinds on shapes of up to three positions with ALL real coordinates for the duality / wrapper-transparency clauses (Circle built with steps=3, its polygon coordinates being opaque trigonometric terms); all 121 ordered pairs of the eleven non-Circle kinds with one fixed small shape each and the second under ALL real translations for the semantic clauses (symmetry of intersects, contains => intersects and rectangle cover, intersects => rectangles intersect, self-containment, Rect == five-point polygon)",
+			"thorough": "same",
+		},
+		Outside:     []string{"Circle in the semantic clauses (C13: not applicable)", "larger shapes than three positions per object; collections of more than two children", "Rect transparency is checked for the fixed shapes under all translations, not for all rectangles"},
+		Stubs:       []string{"Segment.Raycast, Segment.IntersectsSegment -> specs (proved in-run)", "geo.* trigonometry: opaque finite values"},
+		Assumptions: commonAssumptions,
+	}
+	jobTables["C09"] = func(tier string) []Job {
+		out := segLemmaJobs()
+		c := []string{fnRaycast, fnSegSeg}
+		for a := 0; a < 12; a++ {
+			for b := 0; b < 12; b++ {
+				out = append(out, Job{Pkg: "geojson", Harness: "H_Obj_Dual", Params: []int{a, b}, Timeout: 120, Scale: true, Contracts: c, NoCover: a+b > 0, Abstract: a == 5 || b == 5})
+			}
+		}
+		for a := 0; a < 12; a++ {
+			for b := 0; b < 12; b++ {
+				if a == 5 || b == 5 {
+					continue
+				}
+				out = append(out, Job{Pkg: "geojson", Harness: "H_Obj_Sem", Params: []int{a, b}, Timeout: 120, Scale: true, Contracts: c, NoCover: a+b > 0})
+			}
+		}
+		return out
+	}
+}
+
+func init() {
+	propMeta["C10"] = PropMeta{
+		Bounds: map[string]interface{}{
+			"quick":    "MultiPoint / MultiLineString / MultiPolygon / GeometryCollection / FeatureCollection with 0..3 fixed children (empties, duplicates, a nested collection, mixed kinds) x probe objects Point / LineString / Polygon / Rect / GeometryCollection under ALL real translations x child-index threshold 0, 1, 2, 3 (off, always, exact count, count+1); child search with nondeterministic stop; tidwall/rtree executed from its SSA",
+			"thorough": "same",
+		},
+		Outside:     []string{"children with symbolic coordinates (children are fixed shapes; the probe moves)", "more than 3 children, so the child R-tree is a single leaf", "Circle children"},
+		Stubs:       []string{"Segment.Raycast, Segment.IntersectsSegment -> specs (proved in-run)"},
+		Assumptions: commonAssumptions,
+	}
+	jobTables["C10"] = func(tier string) []Job {
+		out := segLemmaJobs()
+		c := []string{fnRaycast, fnSegSeg}
+		for ctype := 0; ctype <= 4; ctype++ {
+			ncfg := 3
+			if ctype >= 3 {
+				ncfg = 4
+			}
+			for cfg := 0; cfg < ncfg; cfg++ {
+				for pk := 0; pk <= 4; pk++ {
+					for idx := 0; idx <= 3; idx++ {
+						out = append(out, Job{Pkg: "geojson", Harness: "H_Coll", Params: []int{ctype, cfg, pk, idx}, Timeout: 120, Scale: true, Contracts: c, NoCover: pk+idx > 0})
+					}
+				}
+			}
+		}
 		return out
 	}
 }
